@@ -1158,11 +1158,23 @@ func CellUses(cell ssa.Value) []CellUse {
 func DerivesFromPath(v ssa.Value, seg string) bool {
 	p := PathOf(v)
 	for _, part := range splitPath(p) {
+		if i := indexByte(part, '@'); i >= 0 {
+			part = part[:i]
+		}
 		if part == seg {
 			return true
 		}
 	}
 	return false
+}
+
+func indexByte(s string, c byte) int {
+	for i := 0; i < len(s); i++ {
+		if s[i] == c {
+			return i
+		}
+	}
+	return -1
 }
 
 func splitPath(p string) []string {
